@@ -15,28 +15,99 @@
 (* escaped panics, a nil result with a nil error, the death of the process *)
 (* and a call that does not return although the step budget bounds the     *)
 (* evaluation ("hung": the worker's time limit passed) are outcomes the    *)
-(* machine does not have.                                                  *)
+(* machine does not have.  The process may also end in an orderly way with *)
+(* a status ("exited": os.Exit was called) -- not an outcome either.       *)
 (***************************************************************************)
-EXTENDS Integers, Sequences, Json, IOUtils, TLC
+EXTENDS Integers, Sequences, SequencesExt, Json, IOUtils, TLC
 
 ASSUME TLCSet(11, ndJsonDeserialize(IOEnv.VERIF_TRACE))
 Cases == TLCGet(11)
 
+(***************************************************************************)
+(* Known deviations (open findings of known_findings.json), comma          *)
+(* separated in VERIF_DEVS; "none" when there is none.                     *)
+(***************************************************************************)
+DevList == "," \o (IF "VERIF_DEVS" \in DOMAIN IOEnv THEN IOEnv.VERIF_DEVS ELSE "") \o ","
+DevOn(d) == ReplaceFirstSubSeq("", "," \o d \o ",", DevList) # DevList
+
 VARIABLES ci, pos, verdict
 tvars == <<ci, pos, verdict>>
 
-Returns == {"val", "err", "more", "budget"}
+(***************************************************************************)
+(* What a call may do.  Through EvalString, LoadString+Run, ParseTokens+   *)
+(* EvalExpressions and macexpand it returns a value, an error, a request   *)
+(* for more input, or the error of the step budget.  A REPL line "returns" *)
+(* when the REPL goes on to read the next line; the recorded call is the   *)
+(* whole session, which returns when the REPL ends in the ordinary way at  *)
+(* the end of its input ("eof").                                           *)
+(***************************************************************************)
+Returns(c) == IF c.entry = "repl" THEN {"eof"} ELSE {"val", "err", "more", "budget"}
+
+(***************************************************************************)
+(* "It returns whenever the program needs only a bounded number of         *)
+(* evaluation steps": the step budget makes that true of every generated   *)
+(* program except those the generator marks unb (macro expansion and       *)
+(* evaluation that call themselves without end, which the budget does not  *)
+(* bound); those may fail to return ("hung") but nothing else.             *)
+(***************************************************************************)
+MayNotReturn(c) == c.unb
+
+(***************************************************************************)
+(* Deviation exit-ends-host.  In an interpreter made by NewZlisp (cfg      *)
+(* "full") the call (exit n) ends the host process with status n mod 256   *)
+(* instead of returning.  prog = <<"exit", n>> is the generator's word     *)
+(* that the one text of the case is that call.                             *)
+(***************************************************************************)
+ExitEndsHost(c, o) ==
+    /\ DevOn("exit-ends-host")
+    /\ c.cfg = "full" /\ c.prog[1] = "exit"
+    /\ o[1] = "exited" /\ o[2] = c.prog[2] % 256
+
+(***************************************************************************)
+(* A channel of capacity cap that only the program itself can reach, and   *)
+(* the sends and receives the program performs on it, in order, on its one *)
+(* thread of control: a send blocks when the buffer is full, a receive     *)
+(* when it is empty, and an operation that blocks is never released.       *)
+(* Blocks is TRUE when some operation of the sequence blocks.              *)
+(***************************************************************************)
+RECURSIVE BlocksFrom(_, _, _, _)
+BlocksFrom(cap, ops, i, n) ==
+    IF i > Len(ops) THEN FALSE
+    ELSE IF ops[i] = "send" THEN (n >= cap \/ BlocksFrom(cap, ops, i + 1, n + 1))
+    ELSE (n = 0 \/ BlocksFrom(cap, ops, i + 1, n - 1))
+Blocks(prog) == BlocksFrom(prog[2], prog[3], 1, 0)
+
+(***************************************************************************)
+(* Deviation chan-blocks-forever.  Such a program needs a handful of       *)
+(* evaluation steps, and the call does not return.                         *)
+(***************************************************************************)
+ChanBlocksForever(c, o) ==
+    /\ DevOn("chan-blocks-forever")
+    /\ c.prog[1] = "chan" /\ Blocks(c.prog)
+    /\ o[1] = "hung"
+
+Known(c, o) ==
+    IF ExitEndsHost(c, o) THEN "known:exit-ends-host"
+    ELSE IF ChanBlocksForever(c, o) THEN "known:chan-blocks-forever"
+    ELSE "no"
 
 TInit == ci \in 1..Len(Cases) /\ pos = 1 /\ verdict = "run"
 
 TStep ==
     /\ verdict = "run" /\ pos <= Len(Cases[ci].outs)
-    /\ LET o == Cases[ci].outs[pos] IN
-       IF o[1] \in Returns THEN pos' = pos + 1 /\ UNCHANGED <<ci, verdict>>
+    /\ LET c == Cases[ci]
+           o == c.outs[pos] IN
+       IF o[1] \in Returns(c) THEN pos' = pos + 1 /\ UNCHANGED <<ci, verdict>>
        ELSE IF o[1] = "notrun" THEN /\ verdict' = "skip" /\ UNCHANGED <<ci, pos>>
-                                    /\ PrintT(<<"VERDICT", Cases[ci].id, "skip", "notrun">>)
+                                    /\ PrintT(<<"VERDICT", c.id, "skip", "notrun">>)
+       ELSE IF o[1] = "hung" /\ MayNotReturn(c)
+            THEN /\ verdict' = "ok" /\ UNCHANGED <<ci, pos>>
+                 /\ PrintT(<<"VERDICT", c.id, "ok", pos>>)
+       ELSE IF Known(c, o) # "no"
+            THEN /\ verdict' = "known" /\ UNCHANGED <<ci, pos>>
+                 /\ PrintT(<<"VERDICT", c.id, Known(c, o), pos>>)
        ELSE /\ verdict' = "bad" /\ UNCHANGED <<ci, pos>>
-            /\ PrintT(<<"VERDICT", Cases[ci].id, "bad", o[1], pos>>)
+            /\ PrintT(<<"VERDICT", c.id, "bad", o[1], pos>>)
 
 TDone ==
     /\ verdict = "run" /\ pos > Len(Cases[ci].outs)
